@@ -19,7 +19,7 @@ from hsim.worlds.udp import UdpWorld
 PROPERTY = "C06"
 BYTE_EXACT = False
 CHUNK = {"quick": 24, "thorough": 60}
-PROBES = ["reconnected_session_forwarded", "corrupt_forwarded", "corrupt_discarded", "proxy_originated_in_window", "garbage_between_valid_same_flow", "two_sessions_same_sim", "same_ip", "reopen_after_close",
+PROBES = ["packet_id_counter_leapt", "reconnected_session_forwarded", "corrupt_forwarded", "corrupt_discarded", "proxy_originated_in_window", "garbage_between_valid_same_flow", "two_sessions_same_sim", "same_ip", "reopen_after_close",
           "spontaneous_emission", "packetack_swallowed", "unjudged_after_close", "late_region_registered",
           "disconnect_midstream", "eager_parsing"]
 COMPONENTS = {
@@ -104,6 +104,7 @@ def gen_plan(rng: random.Random, tier: str) -> dict:
                 steps.append({"at": t, "op": "ucc", "v": v, "r": r})
                 opened.add((v, r))
                 t = round(t + 0.01, 4)
+    jumpy = rng.random() < 0.2
     for _ in range(n):
         t = round(t + rng.choice([0.0, 0.001, 0.01, 0.05, 0.1]), 4)
         v = rng.randrange(n_viewers)
@@ -142,7 +143,18 @@ def gen_plan(rng: random.Random, tier: str) -> dict:
             steps.append({"at": t, "op": rng.choice(["vack", "sack"]), "v": v, "r": r, "n": rng.randint(1, 3),
                           "reack": rng.random() < 0.2, "fate": rand_fate(rng, cfg["p_delay"], cfg["p_dup"])})
         else:
-            steps.append(_valid_step(rng, v, r, rng.random() < 0.5, t, cfg))
+            y = rng.random()
+            if y < 0.08:
+                # an endpoint retransmits something it sent earlier (its ack got lost): one more datagram to deliver
+                steps.append({"at": t, "op": rng.choice(["vsend", "ssend"]), "v": v, "r": r, "name": "x", "mseed": 0,
+                              "retransmit_of": rng.randrange(50), "acks": rng.choice([0, 0, 1]),
+                              "fate": rand_fate(rng, cfg["p_delay"], cfg["p_dup"])})
+                continue
+            st = _valid_step(rng, v, r, rng.random() < 0.5, t, cfg)
+            if jumpy and rng.random() < 0.15:
+                # the sender's packet-ID counter leaps ahead (a counter is only required to increase)
+                st["pid_jump"] = rng.choice([5000, 10001, 25000, 70000])
+            steps.append(st)
     cfg["regions"] = [sorted(set(x for x in rs if x < 3)) for rs in cfg["regions"]]
     return {"property": PROPERTY, "cfg": cfg, "steps": steps}
 
@@ -150,7 +162,7 @@ def gen_plan(rng: random.Random, tier: str) -> dict:
 def simplify_step(step):
     if step.get("fate"):
         yield {**step, "fate": {}}
-    for k in ("acks", "extra", "omit_trailing", "zerocoded", "reliable", "corrupt"):
+    for k in ("acks", "extra", "omit_trailing", "zerocoded", "reliable", "corrupt", "pid_jump"):
         if step.get(k):
             s = dict(step)
             s.pop(k)
